@@ -2,7 +2,10 @@
 // on real xtl::xcomplex objects of every closure kind, a std::complex and a real scalar, and writes,
 // after every call, the call's result and the full observable projection.  It contains no oracle.
 //
-//   machine <float|double> <0|1>     (T, ieee_compliant B)
+//   machine <float|double|ldouble> <0|1>     (T, ieee_compliant B)
+//
+// A call that crashes (sanitizer report, signal) or does not return within 2 s of CPU time ends the trace with a
+// {"op":"Crash"} event that no specification action matches; checks/c10.py restarts the machine at the next execution.
 //
 // Registers (see specs/Complex.tla):
 //   v1, v2 : xcomplex<T,T,B>   w : xcomplex<T,T,!B>   r1, r2 : xcomplex<T&,T&,B> over (p1,q1), (p2,q2)
@@ -15,6 +18,9 @@
 #include <new>
 #include <sstream>
 #include <cstring>
+#include <csignal>
+#include <sys/time.h>
+#include <unistd.h>
 
 // a T as the integer it holds; anything else becomes a sentinel no specification value equals
 template <class T> static long long num(T x)
@@ -41,11 +47,26 @@ template <class Z> static void remark(const Z& z)
 }
 
 // bit pattern of a value as 16-bit limbs (NaNs canonicalised: payload and sign of a NaN are not compared)
+static std::string limbs4(unsigned long long u)
+{
+    return std::to_string((u >> 48) & 0xffff) + "," + std::to_string((u >> 32) & 0xffff) + "," + std::to_string((u >> 16) & 0xffff) + "," + std::to_string(u & 0xffff);
+}
 template <class T> static std::string limbs_of(T x)
 {
     unsigned long long u = 0;
     if (std::isnan(x)) u = 0x7ff8dead00000000ull; else std::memcpy(&u, &x, sizeof(T));
-    return std::to_string((u >> 48) & 0xffff) + "," + std::to_string((u >> 32) & 0xffff) + "," + std::to_string((u >> 16) & 0xffff) + "," + std::to_string(u & 0xffff);
+    return limbs4(u);
+}
+// x87 extended: 64-bit significand + sign/exponent word (the padding bytes are not part of the value)
+template <> std::string limbs_of<long double>(long double x)
+{
+    if (std::isnan(x)) return "32767,65535,65535,65535,65535";
+    unsigned char b[16] = {0};
+    std::memcpy(b, &x, sizeof(long double));
+    unsigned long long m = 0; unsigned se = 0;
+    std::memcpy(&m, b, 8);
+    std::memcpy(&se, b + 8, 2);
+    return std::to_string(se & 0xffff) + "," + limbs4(m);
 }
 template <class T> static std::string bits_of(const std::complex<T>& z) { return "[" + limbs_of(z.real()) + "," + limbs_of(z.imag()) + "]"; }
 template <class T> static std::string bits_of_real(T x) { return "[" + limbs_of(x) + "]"; }
@@ -135,6 +156,26 @@ struct machine
     }
     static std::string self_of(bool b) { return std::string("{\"self\":") + (b ? "true" : "false") + "}"; }
 
+    // the scalar d as an object of the C++ type the script names ("T": the element type itself, as the lvalue d)
+    template <class F> void with_scalar(const std::string& st, F&& f)
+    {
+        if (st == "T") f(d);
+        else if (st == "int") { const int i = int(d); f(i); }
+        else if (st == "long") { const long i = long(d); f(i); }
+        else if (st == "float") { const float i = float(d); f(i); }
+        else if (st == "double") { const double i = double(d); f(i); }
+        else bad("scalar type " + st);
+    }
+    template <class F> static void with_literal(const std::string& st, long long n, F&& f)
+    {
+        if (st == "T") f(T(n));
+        else if (st == "int") f(int(n));
+        else if (st == "long") f(long(n));
+        else if (st == "float") f(float(n));
+        else if (st == "double") f(double(n));
+        else bad("scalar type " + st);
+    }
+
     // ---- one call
     std::string call(const std::string& op, const vj::value& a)
     {
@@ -175,10 +216,9 @@ struct machine
         }
         else if (op == "AssignScalar")
         {
-            long long n = a.num("n"); bool asint = a.str("st") == "int";
+            long long n = a.num("n");
             withm(a.str("x"), [&](auto& z) {
-                if (asint) { auto& r = (z = int(n)); res = self_of(std::addressof(r) == std::addressof(z)); }
-                else { auto& r = (z = T(n)); res = self_of(std::addressof(r) == std::addressof(z)); }
+                with_literal(a.str("st"), n, [&](auto lit) { auto& r = (z = lit); res = self_of(std::addressof(r) == std::addressof(z)); });
             });
         }
         else if (op == "Assign")
@@ -193,6 +233,23 @@ struct machine
             V* t = (x == "v1") ? std::addressof(v1) : (x == "v2") ? std::addressof(v2) : nullptr;
             if (!t) bad("CtorLv target " + x);
             t->~V(); new (t) V(p, q);      // lvalue arguments: a value closure copies them
+        }
+        else if (op == "Swap")
+        {
+            // std::swap of two value closures of the same type (move construction + two move assignments)
+            const std::string& x = a.str("x"); const std::string& y = a.str("y");
+            if ((x != "v1" && x != "v2") || (y != "v1" && y != "v2")) bad("Swap registers");
+            using std::swap;
+            swap(x == "v1" ? v1 : v2, y == "v1" ? v1 : v2);
+        }
+        else if (op == "AssignMove")
+        {
+            // x = std::move(copy of y): the rvalue assignment operator
+            withm(a.str("x"), [&](auto& x) { withc(a.str("y"), [&](auto& y) {
+                auto t = +y;                                   // a value closure holding y's parts
+                auto& r = (x = std::move(t));
+                res = self_of(std::addressof(r) == std::addressof(x));
+            }); });
         }
         else if (op == "FromStd")
         {
@@ -209,17 +266,11 @@ struct machine
         }
         else if (op == "BinS")
         {
-            const std::string& o = a.str("o"); bool left = a.str("side") == "l"; bool asint = a.str("st") == "int";
+            const std::string& o = a.str("o"); bool left = a.str("side") == "l";
             withc(a.str("x"), [&](auto& x) {
-                if (asint)
-                {
-                    int i = int(d);
-                    if (left) { auto z = binop(o, i, x); remark(z); res = pair_of(z); } else { auto z = binop(o, x, i); remark(z); res = pair_of(z); }
-                }
-                else
-                {
-                    if (left) { auto z = binop(o, d, x); remark(z); res = pair_of(z); } else { auto z = binop(o, x, d); remark(z); res = pair_of(z); }
-                }
+                with_scalar(a.str("st"), [&](const auto& sc) {
+                    if (left) { auto z = binop(o, sc, x); remark(z); res = pair_of(z); } else { auto z = binop(o, x, sc); remark(z); res = pair_of(z); }
+                });
             });
         }
         else if (op == "BinStd")
@@ -239,8 +290,8 @@ struct machine
         }
         else if (op == "CmpS")
         {
-            const std::string& o = a.str("o"); bool asint = a.str("st") == "int";
-            withm(a.str("x"), [&](auto& x) { if (asint) { int i = int(d); res = self_of(cmpop(o, x, i)); } else res = self_of(cmpop(o, x, d)); });
+            const std::string& o = a.str("o");
+            withm(a.str("x"), [&](auto& x) { with_scalar(a.str("st"), [&](const auto& sc) { res = self_of(cmpop(o, x, sc)); }); });
         }
         else if (op == "CmpP")
         {
@@ -365,22 +416,31 @@ struct machine
             if (line.empty()) continue;
             vj::value ev = vj::parse(line);
             if (ev.has("_meta")) continue;
+            struct itimerval tv = {{0, 0}, {2, 0}};
+            setitimer(ITIMER_VIRTUAL, &tv, nullptr);           // per-call CPU limit, re-armed at every event
             const std::string& op = ev.str("op");
             note.clear();
             std::string res = call(op, ev.at("a"));
             // echo the call, then what was observed
-            std::string head = line.substr(0, line.rfind('}'));
-            std::cout << head << ",\"res\":" << res << ",\"st\":" << projection();
-            if (!note.empty()) std::cout << ",\"note\":\"" << note << "\"";
-            std::cout << "}\n";
+            std::string outl = line.substr(0, line.rfind('}')) + ",\"res\":" + res + ",\"st\":" + projection();
+            if (!note.empty()) outl += ",\"note\":\"" + note + "\"";
+            outl += "}\n";
+            std::fwrite(outl.data(), 1, outl.size(), stdout);      // C stdio: the crash handlers fflush(stdout)
         }
-        std::cout.flush();
+        std::fflush(stdout);
         return 0;
     }
 };
 
-// CFG selects one instantiation per binary (0: float,false 1: float,true 2: double,false 3: double,true);
-// without it all four are compiled into one binary.
+static void on_timeout(int)
+{
+    std::fflush(stdout);
+    vj::crash_line("timeout");
+    _exit(0);
+}
+
+// CFG selects one instantiation per binary (0: float,false 1: float,true 2: double,false 3: double,true
+// 4: long double,false 5: long double,true); without it all six are compiled into one binary.
 #ifndef CFG
 #define CFG -1
 #endif
@@ -388,8 +448,8 @@ struct machine
 int main(int argc, char** argv)
 {
     vj::install_crash_handlers();
-    std::ios::sync_with_stdio(false);
-    if (argc < 3) { std::fprintf(stderr, "usage: machine <float|double> <0|1>\n"); return 3; }
+    std::signal(SIGVTALRM, on_timeout);
+    if (argc < 3) { std::fprintf(stderr, "usage: machine <float|double|ldouble> <0|1>\n"); return 3; }
     std::string t = argv[1]; bool b = std::atoi(argv[2]) != 0;
 #if CFG == -1 || CFG == 0
     if (t == "float" && !b) { auto m = std::make_unique<machine<float, false>>(); return m->run(); }
@@ -402,6 +462,12 @@ int main(int argc, char** argv)
 #endif
 #if CFG == -1 || CFG == 3
     if (t == "double" && b) { auto m = std::make_unique<machine<double, true>>(); return m->run(); }
+#endif
+#if CFG == -1 || CFG == 4
+    if (t == "ldouble" && !b) { auto m = std::make_unique<machine<long double, false>>(); return m->run(); }
+#endif
+#if CFG == -1 || CFG == 5
+    if (t == "ldouble" && b) { auto m = std::make_unique<machine<long double, true>>(); return m->run(); }
 #endif
     std::fprintf(stderr, "this binary was not built for %s %d\n", t.c_str(), (int)b);
     return 3;
